@@ -49,7 +49,7 @@ type Info struct {
 	Density     string
 	MaxParents  int
 	Rotating    bool
-	Shape       string // "", "many_validators", "late_quorum", "mass_fork"
+	Shape       string // "", "many_validators", "late_quorum", "mass_fork", "long_silence"
 	Layered     bool   // synchronous rounds
 	Marginal    bool   // parents chosen so that their creators weigh about the quorum
 	HiddenForks int    // siblings signed right after each other (the older one is rarely built upon)
@@ -61,7 +61,7 @@ func DrawShape(t *rapid.T, prefer string) string {
 	if s := os.Getenv("VERIF_SHAPE"); s != "" {
 		return s
 	}
-	return rapid.SampledFrom([]string{"many_validators", "late_quorum", "mass_fork", prefer}).Draw(t, "shape")
+	return rapid.SampledFrom([]string{"many_validators", "late_quorum", "mass_fork", "long_silence", prefer, prefer}).Draw(t, "shape")
 }
 
 // GenValidatorsMany draws 65-70 validators (more than one machine word of per-validator flags) with small weights.
@@ -193,6 +193,7 @@ func GenDAG(t *rapid.T, epoch uint32, ids []idx.ValidatorID, weights []pos.Weigh
 	inLate := make([]bool, n) // late_quorum: the validators online during the first phase (less than a quorum)
 	lateRounds, lateLeaver, lateLeaveAt := 0, -1, 0
 	massForker, massAt, massCount := -1, 0, 0
+	silent, silentFrom, silentRounds := -1, 0, 0 // long_silence: one validator is cut off for more than 100 frames
 	switch p.Shape {
 	case "many_validators":
 		nEvents = n * rapid.IntRange(6, 9).Draw(t, "manyValidatorsRounds")
@@ -216,6 +217,21 @@ func GenDAG(t *rapid.T, epoch uint32, ids []idx.ValidatorID, weights []pos.Weigh
 		lateLeaveAt = rapid.IntRange(5, 40).Draw(t, "lateLeaveAt")
 		lateRounds = lateLeaveAt + 700/(nLate-1) + rapid.IntRange(1, 60).Draw(t, "lateRounds")
 		nEvents = lateLeaveAt*nLate + (lateRounds-lateLeaveAt)*(nLate-1) + n*rapid.IntRange(10, 16).Draw(t, "afterRounds")
+	case "long_silence":
+		cands := []int{}
+		for v := 0; v < n; v++ {
+			if 3*uint64(weights[v]) < total {
+				cands = append(cands, v)
+			}
+		}
+		if len(cands) == 0 || n < 3 {
+			info.Shape = ""
+			break
+		}
+		silent = rapid.SampledFrom(cands).Draw(t, "silentValidator")
+		silentFrom = rapid.IntRange(1, 3).Draw(t, "silentFromRound")
+		silentRounds = rapid.IntRange(215, 260).Draw(t, "silentRounds")
+		nEvents = (n-1)*silentRounds + n*rapid.IntRange(8, 14).Draw(t, "afterRounds")
 	case "mass_fork":
 		cands := []int{}
 		for v := 0; v < n; v++ {
@@ -240,6 +256,10 @@ func GenDAG(t *rapid.T, epoch uint32, ids []idx.ValidatorID, weights []pos.Weigh
 	// forkers
 	isForker := make([]bool, n)
 	forkRate := make([]int, n)
+	if info.Shape == "long_silence" {
+		// the others must keep deciding frames for a long time: no forkers, maximal frames, nobody skips rounds
+		p.Forks, p.NonMaxFrames = NoForks, false
+	}
 	if p.Forks != NoForks && (info.Shape == "many_validators" || rapid.IntRange(0, 3).Draw(t, "forksOn") != 0) {
 		forkerPct := rapid.SampledFrom([]int{15, 30, 30, 50}).Draw(t, "forkerPct")
 		var fw uint64
@@ -338,6 +358,10 @@ func GenDAG(t *rapid.T, epoch uint32, ids []idx.ValidatorID, weights []pos.Weigh
 	density := rapid.SampledFrom([]int{100, 100, 95, 95, 90, 80, 70, 50}).Draw(t, "parentPct")
 	info.Density = fmt.Sprintf("%d%%", density)
 	maxParents := rapid.SampledFrom([]int{n, n, n, n, n, n, n - 1, n - 1, (n + 1) / 2, (n + 1) / 2, 2, 1}).Draw(t, "maxOtherParents")
+	if info.Shape == "long_silence" {
+		maxParents = n
+		density = 100
+	}
 	if info.Shape == "late_quorum" && rapid.IntRange(0, 3).Draw(t, "lateSparse") != 0 {
 		// mostly dense: many events wait on the traversal's stack when the block is finally confirmed
 		maxParents = n
@@ -405,6 +429,7 @@ func GenDAG(t *rapid.T, epoch uint32, ids []idx.ValidatorID, weights []pos.Weigh
 	var queue []int // creators scheduled for the current round
 	round := 0
 	burstLeft, burstSP, burstDone := 0, -1, false
+	silentCut := false
 	hiddenSibling, lastSP := false, -1
 	for len(ref.Evs) < nEvents {
 		step++
@@ -432,7 +457,7 @@ func GenDAG(t *rapid.T, epoch uint32, ids []idx.ValidatorID, weights []pos.Weigh
 					if core != nil && rapid.IntRange(0, 15).Draw(t, "coreLate") != 0 {
 						seenLate[v], learnLate[v] = 0, 0
 					}
-					if round < lateRounds {
+					if round < lateRounds || (silent >= 0 && round <= silentFrom+silentRounds) {
 						// the quorum-less phase is a long, regular gossip: no validator lags behind
 						seenLate[v], learnLate[v] = 0, 0
 					}
@@ -490,6 +515,19 @@ func GenDAG(t *rapid.T, epoch uint32, ids []idx.ValidatorID, weights []pos.Weigh
 				}
 				online[lateLeaver] = false
 			}
+			if silent >= 0 {
+				cut := round > silentFrom && round <= silentFrom+silentRounds
+				for v := range online {
+					group[v] = 0
+					if cut || round <= silentFrom {
+						online[v] = true // the others run at full speed: a frame per round or two
+					}
+				}
+				if cut {
+					online[silent] = false
+				}
+				silentCut = cut
+			}
 			if massForker >= 0 && burstLeft == 0 && !burstDone && round >= massAt && len(ref.ByCreat[massForker]) > 0 {
 				own := ref.ByCreat[massForker]
 				burstLeft, burstSP = massCount, own[len(own)-1]
@@ -500,7 +538,7 @@ func GenDAG(t *rapid.T, epoch uint32, ids []idx.ValidatorID, weights []pos.Weigh
 				if !online[v] {
 					continue
 				}
-				if activity[v] < 4 && rapid.IntRange(0, 3).Draw(t, "skipRound") >= activity[v] {
+				if activity[v] < 4 && !silentCut && rapid.IntRange(0, 3).Draw(t, "skipRound") >= activity[v] {
 					continue
 				}
 				queue = append(queue, v)
@@ -586,6 +624,9 @@ func GenDAG(t *rapid.T, epoch uint32, ids []idx.ValidatorID, weights []pos.Weigh
 			}
 			if u == creator || group[u] != group[creator] || len(evs) == 0 || len(evs) <= refFrom[u] {
 				continue
+			}
+			if silentCut && u == silent {
+				continue // nobody hears of the silent validator's events while it is cut off
 			}
 			// a tip the self-parent has seen already brings nothing new: emitters mostly do not reference it again
 			if staleSkip > 0 && sp >= 0 && ref.Evs[sp].Anc.Has(evs[len(evs)-1]) && (staleSkip == 2 || rapid.IntRange(0, 7).Draw(t, "staleTip") != 0) {
@@ -743,6 +784,8 @@ func GenScenario(t *rapid.T, maxEpochs int, p Params) *Scenario {
 		ids, ws, class = GenValidatorsMany(t)
 	case "late_quorum", "mass_fork":
 		ids, ws, class = GenValidatorsN(t, rapid.IntRange(5, 9).Draw(t, "nValidatorsShape"))
+	case "long_silence":
+		ids, ws, class = GenValidatorsN(t, rapid.IntRange(4, 5).Draw(t, "nValidatorsSilence"))
 	default:
 		ids, ws, class = GenValidators(t)
 	}
